@@ -86,7 +86,8 @@ def rebuild(t):
 # ------------------------------------------------------------------------------------------------
 
 def reachable(roots: list) -> list:
-    """every node object reachable from `roots` through children and parent links"""
+    """every node object reachable from `roots` through children, recorded generator parameters (sources) and
+    parent links"""
     seen: dict[int, Any] = {}
     todo = list(roots)
     while todo:
@@ -95,6 +96,7 @@ def reachable(roots: list) -> list:
             continue
         seen[id(n)] = n
         todo.extend(n._children)
+        todo.extend(getattr(n, "_sources", []) or [])     # generator parameters recorded with the node
         todo.append(n._parent)
     return list(seen.values())
 
